@@ -633,7 +633,11 @@ func runC08(r *ev.Run) {
 // runC08TrainLate: a store whose vector template needs training is opened UNTRAINED; documents without a vector
 // (text / metadata only) are acknowledged first, then the application trains through store.Train, then adds vector
 // documents. Everything acknowledged stays visible at every step, also after Flush and cache eviction.
-func runC08TrainLate(r *ev.Run) {
+func runC08TrainLate(r *ev.Run) { runTrainLate(r, false) }
+
+// runTrainLate with restart = true (C09's stream of the same name) goes on after the Flush: Close, then a new Open with a
+// freshly constructed template that was trained before Open, and everything acknowledged must still be found.
+func runTrainLate(r *ev.Run, restart bool) {
 	r.Cases("train-late", r.Pick(16, 200), func(ci int, rng *rand.Rand) {
 		p := storeParams{VecKind: "ivf", Text: true, Meta: true, Dim: 2 + rng.IntN(3), Metric: allMetrics[rng.IntN(3)], CompactionThreshold: 1000,
 			MemtableSizeLimit: []int64{1 << 20, 700}[rng.IntN(2)], FlushThreshold: 1 << 40, Nlist: 2 + rng.IntN(2), ivfUntrained: true}
@@ -659,12 +663,13 @@ func runC08TrainLate(r *ev.Run) {
 			rep("store.open-error", err.Error())
 			return
 		}
-		defer s.Close()
+		defer func() { s.Close() }()
 		ids := newIDGen(rng)
 		ids.min = 1 << 24
 		acked, ever := map[uint32]bool{}, map[uint32]bool{}
 		withVec := map[uint32]bool{}
 		trained := false
+		lostSig := "store.acknowledged-document-invisible"
 		check := func(when string) {
 			// text and metadata see every acknowledged document; the vector query sees those that carry a vector
 			pp := p
@@ -675,7 +680,7 @@ func runC08TrainLate(r *ev.Run) {
 				return
 			}
 			if missing, foreign := a.check(acked, ever); len(missing) > 0 || len(foreign) > 0 {
-				rep("store.acknowledged-document-invisible", fmt.Sprintf("%s: missing %v, never added %v", when, missing, foreign))
+				rep(lostSig, fmt.Sprintf("%s: missing %v, never added %v", when, missing, foreign))
 			}
 			if len(withVec) > 0 {
 				q := make([]float32, p.Dim)
@@ -691,7 +696,7 @@ func runC08TrainLate(r *ev.Run) {
 				}
 				for id := range withVec {
 					if !got[id] {
-						rep("store.acknowledged-document-invisible", fmt.Sprintf("%s: document %d (with vector) is not returned by the full-probe vector query", when, id))
+						rep(lostSig, fmt.Sprintf("%s: document %d (with vector) is not returned by the full-probe vector query", when, id))
 						break
 					}
 				}
@@ -711,7 +716,7 @@ func runC08TrainLate(r *ev.Run) {
 				}
 				for _, id := range sortedKeys(acked) {
 					if !got[id] {
-						rep("store.acknowledged-document-invisible", fmt.Sprintf("%s: document %d (vector=%v) is not returned by a vector+text query whose text matches it", when, id, withVec[id]))
+						rep(lostSig, fmt.Sprintf("%s: document %d (vector=%v) is not returned by a vector+text query whose text matches it", when, id, withVec[id]))
 						break
 					}
 				}
@@ -768,6 +773,31 @@ func runC08TrainLate(r *ev.Run) {
 		check("after-flush")
 		s.VerifEvictAllCaches()
 		check("after-evict")
+		if restart {
+			// a few more documents that only Close will persist, then the restart
+			for i := 0; i < rng.IntN(3); i++ {
+				if !add(rng.IntN(2) == 0) {
+					return
+				}
+			}
+			if err := s.Close(); err != nil {
+				rep("store.close-error", err.Error())
+				return
+			}
+			log = append(log, "Close -> nil")
+			p2 := p
+			p2.ivfUntrained = false // the application restarts with a template it trains before Open
+			s2, err := p2.open(dir)
+			if err != nil {
+				rep("store.open-error", "reopen with a trained template: "+err.Error())
+				return
+			}
+			s = s2
+			lostSig = "store.durable-document-lost.after-reopen"
+			check("after-restart")
+			check("after-restart-second-search")
+			r.Count("restarts:store-trained-late-reopened-with-trained-template", 1)
+		}
 		r.Eval(true, ev.Digest("train-late", p.String(), len(log), ci))
 	})
 }
